@@ -39,7 +39,8 @@ def run_impl(case):
         leq = lambda a, b: m[a][b]   # noqa
         init = list(case['init'])
         cd = PL.true_children(m, init) if case.get('cd') and case['cache'] else None
-        p = POSet(init, leq, use_cache=case['cache'], children_dict=cd)
+        p = POSet(PL.as_iterable(init, case.get('ctor')) if cd is None else init, leq,
+                  use_cache=case['cache'], children_dict=cd)
         outs = [_call(p, o, leq, POSet, case) for o in case['ops']]
         raw = PL.raw_caches_term(p)          # read-only peek, before the final queries fill everything
         # kept as compact strings (Coq terms): thousands of small lists per case are
@@ -112,7 +113,8 @@ def random_case(rng, max_ops, kmax=8):
         init, cache, cd = rng.sample(range(k), rng.choice([10, k])), True, True
         max_ops = min(max_ops, 8)
     ops = PL.random_history(rng, init, k, rng.randint(3, max_ops), cache, ext=True)
-    case = {'matrix': m, 'init': init, 'cache': cache, 'cd': cd, 'ops': ops, 'kind': kind}
+    case = {'matrix': m, 'init': init, 'cache': cache, 'cd': cd, 'ops': ops, 'kind': kind,
+            'ctor': rng.choice(['list', 'list', 'tuple', 'gen', 'map', 'iter'])}
     if rng.random() < 0.3:
         add_eq2(rng, case)
     return case
@@ -329,7 +331,7 @@ def stats(case):
         d['class'] = {'U': 'UpperSemiLattice', 'L': 'LowerSemiLattice', 'B': 'Lattice'}[case['kind']]
         return d
     ops = case['ops']
-    return {'class': 'POSet', 'order': case.get('kind', ''), 'carriers': len(case['matrix']), 'init': len(case['init']),
+    return {'class': 'POSet', 'elements_given_as': case.get('ctor', 'list'), 'order': case.get('kind', ''), 'carriers': len(case['matrix']), 'init': len(case['init']),
             'cache': case['cache'], 'children_dict': bool(case.get('cd')),
             'ops': min(len(ops), 31) // 4 * 4,
             'mutations': sum(1 for o in ops if PL.is_mutation(o)),
